@@ -1017,15 +1017,16 @@ fn format_subexpression(
         }
         ast::Expression::Member(expr, name) => {
             // The digits of an integer literal followed by a period would read back as the start of a float literal
-            let is_int_literal = matches!(
-                expr.node,
+            // A negative literal is parenthesised as a prefix operation already
+            let is_int_literal = match expr.node {
                 ast::Expression::Literal(
                     ast::Literal::IntUntyped(_)
-                        | ast::Literal::IntUnsigned32(_)
-                        | ast::Literal::IntUnsigned64(_)
-                        | ast::Literal::IntSigned64(_)
-                )
-            );
+                    | ast::Literal::IntUnsigned32(_)
+                    | ast::Literal::IntUnsigned64(_),
+                ) => true,
+                ast::Expression::Literal(ast::Literal::IntSigned64(v)) => v >= 0,
+                _ => false,
+            };
             if is_int_literal {
                 output.push('(');
             }
@@ -1061,6 +1062,16 @@ fn format_subexpression(
 /// This is expected to be the same for both RSSL and HLSL
 fn get_expression_precedence(expr: &ast::Expression) -> Result<u32, FormatError> {
     let prec = match expr {
+        // A negative literal is printed with a sign so it binds like a prefix operation
+        ast::Expression::Literal(ast::Literal::IntSigned64(v)) if *v < 0 => 3,
+        ast::Expression::Literal(
+            ast::Literal::FloatUntyped(v) | ast::Literal::Float64(v),
+        ) if v.is_sign_negative() => 3,
+        ast::Expression::Literal(ast::Literal::Float16(v) | ast::Literal::Float32(v))
+            if v.is_sign_negative() =>
+        {
+            3
+        }
         ast::Expression::Literal(_) | ast::Expression::Identifier(_) => 0,
         ast::Expression::UnaryOperation(op, _) => {
             use ast::UnaryOp::*;
